@@ -1249,10 +1249,13 @@ package kafka
 //@ func checkTimeoutErr
 //@   ensures err != nil
 //@ func dontExpectEOF
-//@   trusted rewraps io.EOF as io.ErrUnexpectedEOF
+//@   ensures err != nil ==> result != nil
+//@   ensures err == nil ==> result == nil
 //@ func (*Batch).readMessage
 //@   requires batch.msgs != nil
 //@   option noframe
 //@   modifies heap
 //@   ensures err == nil ==> batch.offset == offset + 1
+// every failure (a cut stream included) is recorded in the batch, so that Close reports it and drops the connection
+//@   ensures err != nil ==> batch.err != nil
 //@   ensures err != nil && batch.offset != old(batch.offset) ==> batch.msgs.lengthRemain == 0 && batch.offset == batch.lastOffset + 1
